@@ -62,7 +62,11 @@ def job(which, op, lc, rc, overflow_checks=True):
     want = want_of(op, l, lc, r, rc)
 
     def post(res):
-        return [('result is Some(Bool(mathematical order))', V.opt_is_some_bool(res.ret, want))]
+        isb = V.opt_is_some_bool(res.ret, True if False else z3.BoolVal(True))
+        isb_f = V.opt_is_some_bool(res.ret, z3.BoolVal(False))
+        some_bool = Or(isb, isb_f)
+        return [('no-value: a numeric comparison yields Some(Bool(_))', some_bool),
+                ('wrong-value: the boolean equals the mathematical order', z3.Implies(some_bool, V.opt_is_some_bool(res.ret, want)))]
     vs = discharge(ex, results, post)
     out = []
     for v in vs:
@@ -118,8 +122,10 @@ def run(ctx):
             def one(c, b): return str(kprop.le_int(b, signed=True)) if c == 'Int' else str(kprop.le_int(b))
             return [binp, 'cmp', 'binop', op, lc, one(lc, vals[0]['bytes']), rc, one(rc, vals[1]['bytes'])]
         return dec
+    def k_key(op, lc, rc):
+        return lambda failed: 'eval_binary_op:%s:%s/%s:%s' % (op, lc, rc, 'no-value' if any('no value' in c for c, _ in failed) else 'wrong-value')
     specs = [kprop.H('c08::c08_%s_%s_%s' % (op.lower(), lc.lower(), rc.lower()), 'eval_binary_op', '%s %s/%s' % (op, lc, rc),
-                     key='eval_binary_op:%s:%s/%s' % (op, lc, rc), replay=k_replay(op, lc, rc),
+                     key=k_key(op, lc, rc), replay=k_replay(op, lc, rc), replay_known=lambda e: [binp] + list(e['replay']),
                      text='eval_binary_op: %s %s %s does not yield the mathematical order' % (lc, op, rc)) for op in OPS for lc, rc in CLASSES]
     if ctx.tier == 'thorough':
         specs.append(kprop.H('c08::c08_twin_must_fail', 'eval_binary_op', 'twin', twin=True))
@@ -138,10 +144,13 @@ def run(ctx):
         ctx.add_obligations(tgt, r['verdicts'], cls=cls)
         bad = [v for v in r['verdicts'] if v['status'] == 'violated']
         ctx.samples.append({'target': tgt, 'class': cls, 'paths': r['paths'], 'verdicts': [v['status'] for v in r['verdicts']]})
-        if bad:
-            v = bad[0]
-            ctx.findings.append(Finding('%s:%s:%s/%s' % (tgt, r['op'], r['lc'], r['rc']),
-                                        '%s: %s %s %s does not yield the mathematical order (l=%s, r=%s)' % (tgt, r['lc'], r['op'], r['rc'], v.get('l'), v.get('r')),
+        seen = set()
+        for v in bad:
+            shape = v['name'].split(':')[0]          # no-value | wrong-value | panic text
+            if shape in seen: continue
+            seen.add(shape)
+            ctx.findings.append(Finding('%s:%s:%s/%s:%s' % (tgt, r['op'], r['lc'], r['rc'], shape),
+                                        '%s: %s %s %s: %s (l=%s, r=%s)' % (tgt, r['lc'], r['op'], r['rc'], v['name'], v.get('l'), v.get('r')),
                                         [binp, 'cmp', r['which'], r['op'], r['lc'], str(v.get('l_bits', v.get('l'))), r['rc'], str(v.get('r_bits', v.get('r')))],
                                         {'l': v.get('l'), 'r': v.get('r')}))
     ctx.models += sorted(models.USED)
